@@ -1,67 +1,89 @@
 import Wl2kVerif.B2F.Session
 import Wl2kVerif.Proofs.Checked
 /-
-`Safe P Q p`: every `panic s` node reachable in program `p` — for ANY input bytes and ANY replies of
+`Safe P R Q p`: every `panic s` node reachable in program `p` — for ANY input bytes and ANY replies of
 the handler — satisfies `P s`, and every value `p` can return satisfies `Q`.
 -/
 namespace Wl2k.B2F
 
-inductive Safe {α : Type} (P : String → Prop) (Q : α → Prop) : Proc α → Prop
-  | ret (a : α) : Q a → Safe P Q (.ret a)
-  | readByte (k : Option UInt8 → Proc α) : (∀ o, Safe P Q (k o)) → Safe P Q (.readByte k)
-  | peek (k : Option UInt8 → Proc α) : (∀ o, Safe P Q (k o)) → Safe P Q (.peek k)
-  | write (bs : Bytes) (k : Proc α) : Safe P Q k → Safe P Q (.write bs k)
-  | call (c : Call) (k : Reply → Proc α) : (∀ r, Safe P Q (k r)) → Safe P Q (.call c k)
-  | panic (s : String) : P s → Safe P Q (.panic s)
+inductive Safe {α : Type} (P : String → Prop) (R : Call → Prop) (Q : α → Prop) : Proc α → Prop
+  | ret (a : α) : Q a → Safe P R Q (.ret a)
+  | readByte (k : Option UInt8 → Proc α) : (∀ o, Safe P R Q (k o)) → Safe P R Q (.readByte k)
+  | peek (k : Option UInt8 → Proc α) : (∀ o, Safe P R Q (k o)) → Safe P R Q (.peek k)
+  | write (bs : Bytes) (k : Proc α) : Safe P R Q k → Safe P R Q (.write bs k)
+  | call (c : Call) (k : Reply → Proc α) : R c → (∀ r, Safe P R Q (k r)) → Safe P R Q (.call c k)
+  | panic (s : String) : P s → Safe P R Q (.panic s)
 
-theorem Safe.bind {α β : Type} {P : String → Prop} {Q : α → Prop} {Q' : β → Prop} {p : Proc α} {f : α → Proc β}
-    (hp : Safe P Q p) (hf : ∀ a, Q a → Safe P Q' (f a)) : Safe P Q' (Proc.bind p f) := by
+theorem Safe.bind {α β : Type} {P : String → Prop} {R : Call → Prop} {Q : α → Prop} {Q' : β → Prop} {p : Proc α} {f : α → Proc β}
+    (hp : Safe P R Q p) (hf : ∀ a, Q a → Safe P R Q' (f a)) : Safe P R Q' (Proc.bind p f) := by
   induction hp with
   | ret a ha => exact hf a ha
   | readByte k _ ih => exact Safe.readByte _ (fun o => ih o)
   | peek k _ ih => exact Safe.peek _ (fun o => ih o)
   | write bs k _ ih => exact Safe.write _ _ ih
-  | call c k _ ih => exact Safe.call _ _ (fun r => ih r)
+  | call c k hc _ ih => exact Safe.call _ _ hc (fun r => ih r)
   | panic s hs => exact Safe.panic s hs
 
-theorem Safe.mono {α : Type} {P : String → Prop} {Q Q' : α → Prop} {p : Proc α}
-    (hp : Safe P Q p) (h : ∀ a, Q a → Q' a) : Safe P Q' p := by
+theorem Safe.mono {α : Type} {P : String → Prop} {R : Call → Prop} {Q Q' : α → Prop} {p : Proc α}
+    (hp : Safe P R Q p) (h : ∀ a, Q a → Q' a) : Safe P R Q' p := by
   induction hp with
   | ret a ha => exact Safe.ret a (h a ha)
   | readByte k _ ih => exact Safe.readByte _ ih
   | peek k _ ih => exact Safe.peek _ ih
   | write bs k _ ih => exact Safe.write _ _ ih
-  | call c k _ ih => exact Safe.call _ _ ih
+  | call c k hc _ ih => exact Safe.call _ _ hc ih
   | panic s hs => exact Safe.panic s hs
 
 theorem bind_eq {α β : Type} (p : Proc α) (f : α → Proc β) : (p >>= f) = Proc.bind p f := rfl
 theorem pure_eq {α : Type} (a : α) : (pure a : Proc α) = Proc.ret a := rfl
 
 /-- Whatever the input and the handler do, a run of a safe program ends in `done` with a value satisfying
-`Q`, or in a panic whose site satisfies `P`. -/
-theorem run_safe {α H : Type} (hstep : H → Call → H × Reply) {P : String → Prop} {Q : α → Prop} {p : Proc α}
-    (hp : Safe P Q p) : ∀ (inp : Bytes) (h : H) (tr : List Ev),
-      match (Proc.run hstep p inp h tr).1 with
+`Q`, or in a panic whose site satisfies `P`; and every handler call it makes satisfies `R`. -/
+theorem run_safe {α H : Type} (hstep : H → Call → H × Reply) {P : String → Prop} {R : Call → Prop} {Q : α → Prop}
+    {p : Proc α} (hp : Safe P R Q p) : ∀ (inp : Bytes) (h : H) (tr : List Ev),
+      (∀ e ∈ tr, ∀ c, e = .called c → R c) →
+      (match (Proc.run hstep p inp h tr).1 with
       | .done a => Q a
       | .panicked s => P s
-      | .blocked => False := by
+      | .blocked => False) ∧
+      (∀ e ∈ (Proc.run hstep p inp h tr).2.2.2, ∀ c, e = .called c → R c) := by
   induction hp with
-  | ret a ha => intro inp h tr; simpa [Proc.run] using ha
+  | ret a ha => intro inp h tr htr; exact ⟨by simpa [Proc.run] using ha, by simpa [Proc.run] using htr⟩
   | readByte k _ ih =>
-    intro inp h tr
+    intro inp h tr htr
     cases inp with
-    | nil => simpa [Proc.run] using ih none [] h tr
-    | cons b t => simpa [Proc.run] using ih (some b) t h tr
+    | nil => simpa [Proc.run] using ih none [] h tr htr
+    | cons b t => simpa [Proc.run] using ih (some b) t h tr htr
   | peek k _ ih =>
-    intro inp h tr
+    intro inp h tr htr
     cases inp with
-    | nil => simpa [Proc.run] using ih none [] h tr
-    | cons b t => simpa [Proc.run] using ih (some b) (b :: t) h (.peeked b :: tr)
-  | write bs k _ ih => intro inp h tr; simpa [Proc.run] using ih inp h (.wrote bs :: tr)
-  | call c k _ ih =>
-    intro inp h tr
+    | nil => simpa [Proc.run] using ih none [] h tr htr
+    | cons b t =>
+      have := ih (some b) (b :: t) h (.peeked b :: tr) (by
+        intro e he c hc
+        simp only [List.mem_cons] at he
+        rcases he with rfl | he
+        · cases hc
+        · exact htr e he c hc)
+      simpa [Proc.run] using this
+  | write bs k _ ih =>
+    intro inp h tr htr
+    have := ih inp h (.wrote bs :: tr) (by
+      intro e he c hc
+      simp only [List.mem_cons] at he
+      rcases he with rfl | he
+      · cases hc
+      · exact htr e he c hc)
+    simpa [Proc.run] using this
+  | call c k hc _ ih =>
+    intro inp h tr htr
     simp only [Proc.run]
-    exact ih (hstep h c).2 inp (hstep h c).1 (.called c :: tr)
-  | panic s hs => intro inp h tr; simpa [Proc.run] using hs
+    exact ih (hstep h c).2 inp (hstep h c).1 (.called c :: tr) (by
+      intro e he c' hc'
+      simp only [List.mem_cons] at he
+      rcases he with rfl | he
+      · cases hc'; exact hc
+      · exact htr e he c' hc')
+  | panic s hs => intro inp h tr htr; exact ⟨by simpa [Proc.run] using hs, by simpa [Proc.run] using htr⟩
 
 end Wl2k.B2F
